@@ -3,6 +3,7 @@ package vmcrash
 import (
 	"fmt"
 	"os"
+	"regexp"
 	"strings"
 
 	"pgregory.net/rapid"
@@ -133,7 +134,11 @@ func c11GenNest(rt *rapid.T) (string, []string) {
 			}
 			fmt.Fprintf(&b, "L%d:\n\tfor {\n", i)
 		}
-		fmt.Fprintf(&b, "\tbreak L0\n%s}\n", c11Rep("\t}\n", n))
+		b.WriteString("\tbreak L0\n")
+		for i := n - 1; i >= 0; i-- {
+			fmt.Fprintf(&b, "\tbreak L%d\n\t}\n", i)
+		}
+		b.WriteString("}\n")
 	case "typeassert":
 		fmt.Fprintf(&b, "func main() {\n\tvar e interface{} = 1\n\tx := e%s\n\tprintln(x)\n}\n", c11Rep(".(interface{})", n))
 	case "deferlit":
@@ -353,7 +358,20 @@ var c11RecUses = []string{
 
 func c11GenRecType(rt *rapid.T) (string, []string) {
 	ty := rapid.SampledFrom(c11RecTypes).Draw(rt, "ty")
-	use := rapid.SampledFrom(c11RecUses).Draw(rt, "use")
+	// only uses whose type names the declaration provides
+	var uses []string
+	for _, u := range c11RecUses {
+		ok := true
+		for _, n := range []string{"T", "A", "B", "U"} {
+			if regexp.MustCompile(`\b`+n+`\b`).MatchString(u) && !regexp.MustCompile(`type `+n+`\b`).MatchString(ty) {
+				ok = false
+			}
+		}
+		if ok {
+			uses = append(uses, u)
+		}
+	}
+	use := rapid.SampledFrom(uses).Draw(rt, "use")
 	where := rapid.SampledFrom([]string{"pkg", "pkg", "local"}).Draw(rt, "where")
 	var src string
 	if where == "local" && !strings.Contains(ty, "func (") {
@@ -376,7 +394,7 @@ var c11ShadowUses = []string{
 	"a := []int{1, 2, 3}; println(len(a), cap(a))", "a := make([]int, 2); a = append(a, 1); println(a[2])", "var p *int = new(int); println(*p)", "var e error; println(e == nil)",
 	"defer func() { r := recover(); println(r) }(); panic(\"x\")", "x := true; y := false; println(x && !y)", "var s string = \"a\"; var b byte = s[0]; println(b)", "m := map[string]int{\"a\": 1}; delete(m, \"a\"); println(len(m))",
 	"const ( a = iota; b ); println(a, b)", "var i int = 1; var f float64 = float64(i); println(f)", "var x interface{} = nil; println(x == nil)", "for i := range 3 { println(i) }", "a := [3]int{}; b := a[:]; copy(b, []int{1}); println(a[0])",
-	"var r rune = 'x'; println(string(r))", "var x any = 1; switch x.(type) { case int: println(1) }", "println(min(1, 2), max(1, 2))", "var a address; println(a)", "type T struct{ error }; var t T; println(t.error == nil)",
+	"var r rune = 'x'; println(string(r))", "var x any = 1; switch x.(type) { case int: println(1) }", "var a address; println(a)", "type T struct{ error }; var t T; println(t.error == nil)",
 	"var x uint8 = 255; x++; println(x)", "func() { defer func() { recover() }(); var m map[string]int; m[\"a\"] = 1 }()", "x := []byte(\"abc\"); println(string(x))",
 }
 
@@ -435,7 +453,16 @@ func c11GenInit(rt *rapid.T) (string, []string) {
 		p = strings.ReplaceAll(p, "func init() { main() }", "func init() { init() }")
 		return "package initx\n\n" + p + "\n", []string{"realm", p}
 	}
-	body := rapid.SampledFrom([]string{"", "println(1)", "init()", "println(a)", "println(x)"}).Draw(rt, "body")
+	bodies := []string{"", "println(1)"}
+	for _, v := range []string{"a", "x", "f", "s", "m", "p", "once"} {
+		if regexp.MustCompile(`(?m)^var ` + v + `\b`).MatchString(p) {
+			bodies = append(bodies, "println("+v+")", "_ = "+v)
+		}
+	}
+	if strings.Contains(p, "var f = func() {") || strings.Contains(p, "var f func()") {
+		bodies = append(bodies, "f()")
+	}
+	body := rapid.SampledFrom(bodies).Draw(rt, "body")
 	return "package main\n\n" + p + "\n\nfunc main() {\n\t" + body + "\n}\n", []string{"main", p, body}
 }
 
